@@ -14,6 +14,7 @@ import (
 	"github.com/postalsys/muti-metroo/internal/protocol"
 	"github.com/postalsys/muti-metroo/internal/routing"
 	"github.com/postalsys/muti-metroo/internal/sleep"
+	"github.com/postalsys/muti-metroo/internal/stream"
 )
 
 type demoSender struct{}
@@ -73,5 +74,23 @@ func TestVerifDemo_C16_CloseFromOtherPeer(t *testing.T) {
 	a.handleICMPClose(other, &protocol.Frame{Type: protocol.FrameICMPClose, StreamID: 1})
 	if a.icmpIngressByStream[1] == nil {
 		t.Log("VERIF-DEMO-REPRODUCED: ICMP_CLOSE from another peer removed the agent's own ICMP session")
+	}
+}
+
+// A STREAM_CLOSE from a neighbour other than the next hop of a stream the agent opened itself,
+// with the same per-connection stream id (e.g. the crossing close of a relayed stream whose
+// entry is already gone), ends the agent's own stream.
+func TestVerifDemo_C16_OwnStreamClosedByOtherPeer(t *testing.T) {
+	var id, next, other identity.AgentID
+	id[0], next[0], other[0] = 9, 1, 2
+	a := &Agent{id: id, logger: logging.NopLogger(), tcpRelay: newRelayTable(), udpRelay: newRelayTable(), icmpRelay: newRelayTable(),
+		streamMgr: stream.NewManager(stream.DefaultManagerConfig(), id)}
+	s, err := a.streamMgr.AcceptStream(1, 1, next, "h", 80)
+	if err != nil {
+		t.Fatal(err)
+	}
+	a.handleStreamClose(other, &protocol.Frame{Type: protocol.FrameStreamClose, StreamID: 1})
+	if a.streamMgr.GetStream(1) != s {
+		t.Log("VERIF-DEMO-REPRODUCED: STREAM_CLOSE from another peer ended the agent's own stream")
 	}
 }
